@@ -132,7 +132,10 @@ EveryDimOps == {"isel_kw", "mean", "cumsum", "isel_slice_kw", "squeeze"}
 \* the grid handle may differ from the source's only for these
 GridChanging == RemapOps \cup DualOps \cup SubsetOps \cup FreeOps \cup CopyOps
 
-Op(n, d) == [op |-> n, d |-> d]
+\* an operation: name, dimension argument, and (dataset-level operations touching the grid) the location MIX of the
+\* dataset it is applied to: which companion variables stand next to the array in the dataset
+Op(n, d)      == [op |-> n, d |-> d, m |-> {}]
+OpM(n, d, m)  == [op |-> n, d |-> d, m |-> m]
 NoOp == Op("start", "-")
 
 \* is the effect left free by the property (refusal or any consistent result)?
@@ -246,20 +249,64 @@ DsBase == [ ds_getitem |-> "compute", ds_attr |-> "compute", ds_data_vars |-> "c
             ds_get_dual |-> "get_dual", ds_remap_nn_face |-> "remap_nn_face",
             \* dataset-level indexing on the grid dimension: left free (refusal or any consistent result)
             ds_isel_grid_kw |-> "isel_grid_dict", ds_isel_grid_step |-> "isel_grid_step_dict",
-            ds_head_grid |-> "head_grid" ]
+            ds_head_grid |-> "head_grid", ds_tail_grid |-> "head_grid", ds_thin_grid |-> "head_grid",
+            ds_isel_grid_slice |-> "isel_grid_dict", ds_isel_grid_array |-> "isel_grid_dict",
+            ds_isel_grid_rev |-> "isel_grid_rev_dict" ]
 DsOps  == DOMAIN DsBase
 B(n)   == IF n \in DsOps THEN DsBase[n] ELSE n
-BO(o)  == Op(B(o.op), o.d)
+
+(* ---- MIXED-location datasets ----------------------------------------------- *)
+(* Next to the array ("v") the dataset holds companion variables on other      *)
+(* element kinds: cf (n_face), cn (n_node), ce (n_edge), c0 (aux: no grid dim), *)
+(* c2 (aux, aux2, n_node: two non-grid dims).  For the dataset-level operations *)
+(* that touch a grid dimension TLC enumerates the mix (and, for selections, the *)
+(* grid dimension selected along: the array's or any companion's).  After the   *)
+(* operation EVERY variable must carry the result grid's counts.                *)
+SeqRange(q)  == { q[i] : i \in 1..Len(q) }
+Companions   == {"cf", "cn", "ce", "c0", "c2"}
+CompShape(c) == CASE c = "cf" -> <<"n_face">> [] c = "cn" -> <<"n_node">> [] c = "ce" -> <<"n_edge">>
+                  [] c = "c0" -> <<"aux">> [] c = "c2" -> <<"aux", "aux2", "n_node">>
+AuxLen(k)    == IF k = "aux" THEN 4 ELSE 2
+Mixes        == (SUBSET {"cf", "cn", "ce"} \ {{}}) \cup {{"c0", "c2"}, Companions}
+KindsOf(m)   == { k \in GridKinds : \E c \in m : k \in SeqRange(CompShape(c)) }
+MixSelectOps == {"ds_isel_grid_kw", "ds_isel_grid_step", "ds_isel_grid_slice", "ds_isel_grid_array", "ds_isel_grid_rev",
+                 "ds_head_grid", "ds_tail_grid", "ds_thin_grid"}
+MixOtherOps  == {"ds_get_dual", "ds_remap_nn_face", "ds_copy_deep", "ds_mean_grid"}
+MixOps       == MixSelectOps \cup MixOtherOps
+\* (for a selection on a mixed dataset d is the grid dimension selected along; the array-level analogue has none)
+BO(o)  == Op(B(o.op), IF o.op \in MixOps THEN "-" ELSE o.d)
 AllOps == ArrOps \cup DsOps
 DsName(n, nm) == CASE n \in {"ds_assign", "ds_rename_var", "ds_setitem"} -> "w"
                    [] n = "ds_to_array" -> "none"
                    [] B(n) \in OwnOps -> nm
                    [] OTHER -> "v"
-Pre(o, a, G)  == PreA(BO(o), a, G)
-IsFree(o, a)  == IsFreeA(BO(o), a)
+Pre(o, a, G)  == /\ PreA(BO(o), a, G)
+                 /\ o.op \notin MixOps => o.m = {}
+                 /\ o.op \in MixOps => /\ o.m \in Mixes \cup {{}}
+                                       /\ IF o.op \in MixSelectOps /\ o.m # {}
+                                          THEN o.d \in {Centred(a)} \cup KindsOf(o.m) ELSE o.d = "-"
+\* remapping a dataset that holds a variable without any grid dimension: refusal is accepted
+IsFree(o, a)  == IsFreeA(BO(o), a) \/ (o.op = "ds_remap_nn_face" /\ "c0" \in o.m)
 Eff(o, a, G)  == IF o.op \in DsOps
                  THEN LET r == EffA(BO(o), a, G) IN R([r.a EXCEPT !.name = DsName(o.op, @)], r.G)
                  ELSE EffA(o, a, G)
+
+\* what every companion must look like afterwards: kinds in order, <<kind, length>> with a grid dim's length given
+\* as the handle whose count it equals (always the RESULT's grid)
+CompDims(c, h) == [i \in 1..Len(CompShape(c)) |->
+                     LET k == CompShape(c)[i] IN <<k, IF k \in GridKinds THEN h ELSE AuxLen(k)>>]
+MapKind(q, f(_)) == [i \in 1..Len(q) |-> IF q[i][1] \in GridKinds THEN <<f(q[i][1]), q[i][2]>> ELSE q[i]]
+DualKind(k)  == CASE k = "n_face" -> "n_node" [] k = "n_node" -> "n_face" [] OTHER -> k
+ToFace(k)    == "n_face"
+CompExp(o, a, G) ==
+  LET rg == Eff(o, a, G).a.grid
+      pk == Centred(a)
+  IN [c \in o.m |->
+        LET q == CompDims(c, rg) IN
+        CASE o.op = "ds_get_dual"      -> MapKind(q, DualKind)
+          [] o.op = "ds_remap_nn_face" -> MapKind(q, ToFace)
+          [] o.op = "ds_mean_grid"     -> IF q[Len(q)][1] = pk THEN SubSeq(q, 1, Len(q) - 1) ELSE q
+          [] OTHER -> q]
 
 (* ---- which operations are tried in a state ------------------------------ *)
 NoDimAll    == NoDimOps \cup { n \in DsOps : DsBase[n] \in NoDimOps }
@@ -269,7 +316,11 @@ Cands(a) ==
   { Op(n, "-") : n \in NoDimAll }
   \cup { Op(n, a.dims[i].k) : n \in DimAll \cap EveryDimAll, i \in LeadIdx(a) }
   \cup (IF LeadIdx(a) = {} THEN {} ELSE { Op(n, a.dims[FirstLead(a)].k) : n \in DimAll \ EveryDimAll })
-Enabled(a, G) == { o \in Cands(a) : Pre(o, a, G) }
+MixCands(a) ==
+  IF ~HasGridDim(a) THEN {}
+  ELSE { OpM(n, k, m) : n \in MixSelectOps, m \in Mixes, k \in GridKinds }
+       \cup { OpM(n, "-", m) : n \in MixOtherOps, m \in Mixes }
+Enabled(a, G) == { o \in Cands(a) \cup MixCands(a) : Pre(o, a, G) }
 
 (* ---- the machine -------------------------------------------------------- *)
 Grid0 == << [kind |-> "base", of |-> 0, closed |-> TRUE], [kind |-> "dest", of |-> 0, closed |-> TRUE] >>
@@ -300,9 +351,10 @@ IndexGridDim == \E o \in Cands(arr) : o.op \in FreeOps /\ Do(o)
 Copy         == \E o \in Cands(arr) : o.op \in CopyOps /\ Do(o)
 BrokenOp     == \E o \in Cands(arr) : o.op \in BrokenOps /\ Do(o)
 ThroughDataset == \E o \in Cands(arr) : o.op \in DsOps /\ Do(o)
+MixedDataset   == \E o \in MixCands(arr) : Do(o)
 
 Next == \/ Elementwise \/ Permute \/ DropLead \/ ResizeLead \/ AddLead \/ DropGridDim
-        \/ ReplaceOnGrid \/ Remap \/ Dual \/ Subset \/ IndexGridDim \/ Copy \/ BrokenOp \/ ThroughDataset
+        \/ ReplaceOnGrid \/ Remap \/ Dual \/ Subset \/ IndexGridDim \/ Copy \/ BrokenOp \/ ThroughDataset \/ MixedDataset
 
 Spec == Init /\ [][Next]_vars
 
@@ -315,7 +367,8 @@ ArrOK(a, G) == /\ a.cls \in {"Ux", "Plain", "Other"} /\ a.grid \in 0..Len(G)
                /\ DistinctKinds(a) /\ OneGridDim(a)
 GridOK(G) == \A h \in 1..Len(G) : /\ G[h].kind \in {"base", "dest", "subset", "dual", "copy"}
                                   /\ G[h].of \in 0..(h - 1) /\ G[h].closed \in BOOLEAN
-TypeOK == ArrOK(arr, grids) /\ GridOK(grids) /\ last.op \in AllOps \cup {"start"} /\ depth \in 0..MaxDepth
+TypeOK == /\ ArrOK(arr, grids) /\ GridOK(grids) /\ last.op \in AllOps \cup {"start"} /\ depth \in 0..MaxDepth
+          /\ last.m \in Mixes \cup {{}}
 
 IsUx               == IsUxArr(arr)
 \* element i of the data along the grid dimension belongs to element i of the attached grid
@@ -327,6 +380,10 @@ SameGrid == [][ arr'.grid = arr.grid \/ B(last'.op) \in GridChanging ]_vars
 DeepCopyFresh == [][ B(last'.op) \in CopyOps =>
                        /\ arr'.grid = Len(grids) + 1 /\ arr'.grid # arr.grid
                        /\ grids'[arr'.grid].kind = "copy" /\ grids'[arr'.grid].of = arr.grid ]_vars
+\* on a mixed dataset EVERY variable ends up with the counts of the result's grid
+MixedGridDimsConsistent ==
+  [][ \A c \in last'.m : LET q == CompExp(last', arr, grids)[c]
+                          IN \A i \in 1..Len(q) : q[i][1] \in GridKinds => q[i][2] = arr'.grid ]_vars
 \* grids are never forgotten or rewritten
 GridsGrow == [][ Len(grids') >= Len(grids) /\ SubSeq(grids', 1, Len(grids)) = grids ]_vars
 
@@ -334,7 +391,7 @@ GridsGrow == [][ Len(grids') >= Len(grids) /\ SubSeq(grids', 1, Len(grids)) = gr
 \* grouped by result: <<result, {<<op, d, free>>}>>; printed on one line (ToString) for the harness
 Succ(a, G) == LET E == Enabled(a, G)
                   Rs == { Eff(o, a, G) : o \in E }
-              IN { <<r, { <<o.op, o.d, IsFree(o, a)>> : o \in { x \in E : Eff(x, a, G) = r } }>> : r \in Rs }
+              IN { <<r, { <<o.op, o.d, o.m, IsFree(o, a)>> : o \in { x \in E : Eff(x, a, G) = r } }>> : r \in Rs }
 Emit == /\ (EmitSucc /\ depth < MaxDepth) => PrintT(ToString(<<"X", depth, arr, grids, Succ(arr, grids)>>))
         /\ (EmitSucc /\ depth = 0) => PrintT(ToString(<<"OPS", AllOps, [n \in AllOps |-> B(n)]>>))
 GenView == <<arr, grids, depth>>
